@@ -37,13 +37,13 @@ CHECKS['C02'] = (E1 + ' (differential between engines)', 'E1-input-config-explor
     'DESIGN.md section 4 C02')
 CHECKS['C03'] = (E1 + ' with exhaustive per-case threshold sets (two-run metamorphic oracle)', 'E1-input-config-explorer',
     'For every case of the universe every threshold at which the pruning logic can change branch (one per gap between consecutive cell optima / distance / Euclidean bound) is tried as max_dist on 9 routes '
-    '(Python/C x distance, warping_paths, keep_int_repr, compact, distance_matrix); use_pruning is tried in every configuration in which C03 calls the bound valid. Result must be the unbounded result or inf as the property states.',
+    '(Python/C x distance, warping_paths, keep_int_repr, compact, distance_matrix); use_pruning is tried in every configuration in which C03 calls the bound valid, also together with max_dist; in the matrix routes the pair is the last pair of a 4-series collection; a multivariate sub-universe runs the same through dtw_ndim. Result must be the unbounded result or inf as the property states.',
     'Trusted: the same routine without max_dist as oracle (C01/C02/C04 cover it); thresholds within 1e-9 relative of the true value are not judged.',
     'DESIGN.md section 4 C03')
 
 CHECKS['C09'] = (E1, 'E1-input-config-explorer',
     'All series pairs over a positive and a mixed-sign dyadic alphabet (lengths 1..4, ndim 1..3) x both inner distances x every window: every public and exported way to obtain the Euclidean bound '
-    '(ed.distance, distance_fast, ub_euclidean, ed_cc.distance_ndim, dtw_cc.ub_euclidean(_ndim), distance(only_ub) in 4 routes, C functions) equals the defining formula and is >= the reference DTW; '
+    '(ed.distance, distance_fast, ub_euclidean, ed_cc.distance_ndim, dtw_cc.ub_euclidean(_ndim), distance(only_ub) in 4 routes and combined with use_pruning / window+penalty, C functions) equals the defining formula and is >= the reference DTW; '
     'LB_Keogh (Python, Cython, C) is equal in both engines and <= reference DTW for penalties {0,.5,2}.',
     'Trusted: reference DTW (C01 ties it to the implementation). LB is not required to equal the textbook envelope, only to be a lower bound and engine-independent.',
     'DESIGN.md section 4 C09')
@@ -53,14 +53,14 @@ CHECKS['C10'] = (E1 + ' (oracle-free metamorphic relations over a complete setti
     'Trusted: nothing but float comparison; the relations are exactly those named in C10.',
     'DESIGN.md section 4 C10')
 CHECKS['C11'] = (E1, 'E1-input-config-explorer',
-    'All pairs of series of d-vectors (d 1..3, lengths 1..3) over a 2-letter alphabet x settings cross: dtw_ndim.distance/_fast, warping_paths(_fast) value+shape, warping_path (validity and cost), '
+    'All pairs of series of d-vectors (d 1..3, lengths 1..3) over a 2-letter alphabet x settings cross: dtw_ndim.distance/_fast, warping_paths(_fast) value, shape and every cell, warping_path (validity and cost), max_length_diff {1,2} on unequal lengths, '
     'use_pruning, and distance_matrix over 3-collections in list-of-2D and 3-D containers, both engines, against the path-definition reference with vector point distance; d=1 also against the univariate routine.',
-    'Trusted: vf/oracles.py. Two open findings (K01 best path under psi end-relaxation, K02 C warping_paths psi end-relaxation with a window) are matched narrowly by tags.',
+    'Trusted: vf/oracles.py (vector point distances); the cell judge is shared with C04.',
     'DESIGN.md section 4 C11')
 
 CHECKS['C04'] = (E1, 'E1-input-config-explorer',
     'Accumulated-cost matrices from four producers (Python warping_paths, C full matrix, C compact array + dtw_expand_wps, C compact array + dtw_expand_wps_slice for EVERY slice of small shapes) are compared cell by cell '
-    'with a reference table of per-cell optima, under exactly the freedoms C04 names (cells above max_dist, -1 marks in the relaxed suffix, infinite outside the band); the returned distance is compared with the distance-only routine; ndim 1-2.',
+    'with a reference table of per-cell optima, under exactly the freedoms C04 names (cells above max_dist, -1 marks in the relaxed suffix, infinite outside the band); the returned distance is compared with the distance-only routine; ndim 1-2; max_dist takes fixed values and, per case, a threshold in the gap just above that case\'s distance and one in the middle of its cell values; long thin bands up to 12 (18).',
     'Trusted: vf/oracles.py cell table. Row 0 / column 0 are compared between engines only. A native crash of a worker is reported as a violation with the case from its breadcrumb.',
     'DESIGN.md section 4 C04')
 CHECKS['C05'] = (E1, 'E1-input-config-explorer',
@@ -87,25 +87,25 @@ CHECKS['C08'] = (E4, 'E4-sanitizer-native-enumerator',
 E3 = 'stateless model checking of the real C code under a controlled cooperative scheduler (iterative preemption bounding), plus exhaustive completion orders of a virtual worker pool'
 CHECKS['C07'] = (E3, 'E3-vomp-schedule-explorer',
     'The six dtw_distances_*_parallel routines are compiled with gcc -fopenmp (outlined exactly as shipped) and -fsanitize=thread as an instrumentation pass, and linked against vomp, a virtual OpenMP runtime whose ucontext threads are '
-    'scheduled by the explorer: every interleaving of scheduling points up to 2 (3) preemptions x T = 1..3 (4) x 5 dispatch kinds (static/dynamic/guided, chosen by the explorer) x blocks x 4 settings (default, window+psi+penalty, use_pruning, max_dist+psi) must give output bitwise equal to the serial routine; '
+    'scheduled by the explorer: every interleaving of scheduling points up to 2 (3) preemptions x T = 1..3 (4) x 5 dispatch kinds (static/dynamic/guided, chosen by the explorer) x blocks x 5 settings (default, window+psi+penalty, use_pruning, max_dist+psi, max_length_diff) must give output bitwise equal to the serial routine; '
     'conflicting accesses found by a shadow map become additional scheduling points (two-phase). multiprocessing: a virtual Pool (pickled tasks, real chunking, all completion orders, P = 1..3) replaces multiprocessing.Pool; validated against the real Pool.',
     'Trusted: vomp (sequentially consistent interleavings; libgomp itself and weak memory are out of scope), gcc outlining. Bounds: T <= 4, preemption bound <= 3, n <= 5.',
     'DESIGN.md section 3 E3a/E3b, section 4 C07')
 
 CHECKS['C17'] = (E1, 'E1-input-config-explorer',
-    'All pairs of sequences over {A,B,C} with lengths 0..4 (5), empty sequences included, x 6 scorings (default, custom gap costs, dictionaries with asymmetric entries, max/min orientation) x all 6 traceback orders: '
+    'All pairs of sequences over {A,B,C} with lengths 0..4 (5), empty sequences included, x 8 scorings (default, custom gap costs, dictionaries with asymmetric, one-sided and zero-valued entries, max/min orientation) x all 6 traceback orders: '
     'the returned value must equal the maximum score over ALL explicitly enumerated global alignments, and every reconstructed alignment must be equal-length, gap/gap-free, de-gap to the inputs and score the returned value.',
-    'Trusted: the 15-line recursive enumeration of alignments. Column score = -substitution value / -gap (library sign convention).',
+    'Trusted: the 15-line recursive enumeration of alignments and an independent reading of the dictionary scoring (the library\'s own substitution function is never used by the reference).',
     'DESIGN.md section 4 C17')
 CHECKS['C19'] = (E1, 'E1-input-config-explorer',
     'All arrays over a 4-letter non-negative alphabet of shapes (1,),(2,),(3,),(2,2) x every method of distance_to_similarity and squash x explicit/derived r, a, x0, base x cover_quantile forms x keep_sign x return_params: '
-    'pointwise monotonicity on all index pairs, zero distance -> maximal similarity, range [0,1] under the default scale, equality with the documented closed form for explicit parameters, no NaN, and re-application with the reported parameters.',
+    'pointwise monotonicity on all index pairs, zero distance -> maximal similarity, range [0,1] under the default scale, equality with the documented closed form for explicit parameters (an explicit x0 / r is the one of the formula and must be the one reported), the documented quantile contract (the requested value is reached at the quantile) for derived parameters, no NaN, and re-application with the reported parameters.',
     'Trusted: math.exp transcription of the docstring formulas. Explicitly requested quantile targets that are unsatisfiable (derived scale not finite and positive) are counted, not judged.',
     'DESIGN.md section 4 C19')
 
 CHECKS['C13'] = (E1 + '; ' + E2, 'E1-input-config-explorer + E2-history-explorer',
     'Every (query len 1..3, series len 1..5 (6)) pair over a 3-letter alphabet x 3 penalties x 48 iterator argument sets x both engines (ndim 1-2): matching function == brute force over all start points of the reference DTW / len(query); '
-    'best match and every k-best match: path is a valid warping path over its segment whose cost realises the value; iterator: distinct ends, sorted values, length limits, no overlap; engines agree. '
+    'best match and every k-best match: path is a valid warping path over its segment whose cost realises the value; iterator: distinct ends, sorted values, length limits, no overlap, and no end position left out that no stated rule can exclude; engines agree. '
     'Histories up to depth 3 (4) over {align, matching_function, best_match, two interleaved iterators, reset} must answer like a fresh object.',
     'Trusted: vf/oracles.py DTW. After the first match whose equally optimal path differs between engines later masking may differ (not judged).',
     'DESIGN.md section 4 C13')
@@ -125,13 +125,13 @@ CHECKS['C15'] = (E2 + ' (merge state machine monitored on every transition)', 'E
 CHECKS['C16'] = (E5, 'E5-choice-tape-explorer',
     'numpy.random.randint/choice and random.randint are replaced inside the harness by functions reading a choice tape; for every (data set, configuration) the complete tree of random outcomes is enumerated depth first '
     '(for choice without replacement: every ordered subset of the support), i.e. a superset of all seeds. Every leaf (a complete KMeans.fit) is judged: keys 0..k-1, index sets partition all series, k means, every series with a nearest mean under the reference DTW, '
-    'performed_it <= max_it+1, monitor protocol; exceptions are violations. Data: multisets of 3..5 short series (duplicates included), k in {2,3}, 4 initialisations, 9 option sets incl. C engine and the virtual pool.',
+    'performed_it <= max_it+1, monitor protocol; exceptions are violations. Data: multisets of 3..5 short series (duplicates, outlier patterns and a sample over a 3-letter alphabet included), k in {2,3}, 4 initialisations, 11 option sets incl. drop_stddev 0.5/1/3, C engine and the virtual pool; the same model object is fitted a second time after the first leaf of every tree.',
     'Trusted: vf/oracles.py DTW (1e-9 slack, means are not dyadic); the choice functions mirror numpy semantics incl. its ValueError for unsatisfiable draws. Leaf cap 20000 per tree (reported if hit).',
     'DESIGN.md section 3 E5, section 4 C16')
 
 CHECKS['C12'] = (E1, 'E1-input-config-explorer',
     'Every collection of 1..3 short series x initial average x non-empty mask x window x penalty (ndim 1-2, list and matrix containers) through dba (Python), dba(use_c) and dtw_cc.dba/_ndim: ALL optimal warping paths of (average, series) are enumerated explicitly and the result must be the '
-    'per-position mean under some combination of them; value range; sum of squared reference DTW distances does not increase; engines agree when the optimal paths are unique; single-symbol changes of unselected series leave the result unchanged; dba_loop: <= max_it update steps, caller\'s c untouched, identical series are a fixed point.',
+    'per-position mean under some combination of them; value range; sum of squared reference DTW distances does not increase; engines agree when the optimal paths are unique; single-symbol changes of unselected series leave the result unchanged; dba_loop: <= max_it update steps, caller\'s c untouched, identical series are a fixed point, each step starts from the previous output, the result is the last output and kept averages are the step outputs; collections of 9, 10 (17) series with EVERY non-empty mask (the mask is a bit array in C).',
     'Trusted: vf/oracles.py explicit path enumeration (combination cap 4096, reported if hit). The probabilistic DBA is outside C12.',
     'DESIGN.md section 4 C12')
 CHECKS['C18'] = (E1 + '; ' + E2, 'E1-input-config-explorer + E2-history-explorer',
